@@ -64,7 +64,7 @@ def write_circ_gvf(path, recs):
                                'OFFSET=%s;LENGTH=%s;INTRON=%s;TRANSCRIPT_ID=%s;GENE_SYMBOL=%s;GENOMIC_POSITION=chr:%d:%d' % (
                                    ','.join(map(str, r['offsets'])), ','.join(map(str, r['lengths'])),
                                    ','.join(map(str, r.get('introns', []))), r['tx_id'], r['gene_name'],
-                                   r['start'], r['start'] + r['offsets'][-1] + r['lengths'][-1])]) + '\n')
+                                   r['start'], r['start'] + max(o + l for o, l in zip(r['offsets'], r['lengths'])))]) + '\n')
 
 def init(wd):
     CV.init(wd)
